@@ -314,6 +314,30 @@ theorem recv_v1_mutant_rejected (hlen : ∀ b, (H b).length = 32) (hnc : ¬ Coll
     · exact absurd c hnc
 
 omit hlen in
+/-- **unexpired (v2).**  A received v2 packet's timeout (seconds) is strictly after the chain's own block
+    time in whole seconds. -/
+theorem recv_v2_unexpired (f : RecvV2) (h : recvV2 H f = .ok) : f.env.nowNs / 1000000000 < f.pkt.timeout.toNat := by
+  obtain ⟨cp, hu, _⟩ := (recv_v2_success_iff H f).mp h
+  exact hu.2.2.2.2.2.2.2
+
+omit hlen in
+/-- **mutants fail (v2).**  If the proof is honest for the packet `q` sent from client `sc` with sequence
+    `n` and the message differs from that in source client, sequence, destination client, timeout or
+    anywhere in the payload list, it is not received (never `ok`) unless SHA-256 collides.  (Once the
+    packet *has* been received, v2 answers NOOP without looking at the proof — nothing is written.) -/
+theorem recv_v2_mutant_not_received (hlen : ∀ b, (H b).length = 32) (hnc : ¬ Collision H) (f : RecvV2)
+    (cp : CpV2) (l : Bytes) (hcp : f.cp = some cp) (hl : cp.pre.getLast? = some l)
+    (sc : Bytes) (n : Nat) (q : PacketV2) (hn : n < 2^64) (hq : q.timeoutTs < 2^64)
+    (hkey : f.proof.readKey = l ++ Keys.v2Key .commitment sc n)
+    (hval : f.proof.provenValue = some (commitV2 H q))
+    (hmut : ¬ (f.pkt.srcClient = sc ∧ f.pkt.seq.toNat = n ∧ f.pkt.committed = q)) :
+    recvV2 H f ≠ .ok := by
+  intro h
+  rcases recv_binds_packet_v2 H hlen f h cp l hcp hl sc n q hn hq hkey hval with e | c
+  · exact hmut e
+  · exact hnc c
+
+omit hlen in
 /-- non-vacuity: a concrete UNORDERED receive that succeeds, the same message when the receipt exists
     (NOOP), the same message with one data byte changed against the same proof (rejected by the
     proof), and the same message once the chain has reached the timeout height (rejected as expired) -/
